@@ -617,6 +617,85 @@ def corpus(ck, n):
     return outs
 
 
+class _O:
+    """attribute bag, hashable by identity"""
+
+    def __init__(self, **kw):
+        self.__dict__.update(kw)
+
+
+def stub_fast(rng, n):
+    """n generated live-range sets through the REAL use_fast_storage_for_feature_maps / FastStorageComponentAllocator (stub
+    scheduler object, real Tensor / LiveRange / LiveRangeGraph objects; the extraction is replaced by the generated ranges, the
+    access estimate by generated scores).  Reaches what compiled networks rarely do: many competing ranges, several components,
+    components of MAX_EXHAUSTIVE_ITEMS ranges, removal of long ranges, ranges that can never fit next to kept ones."""
+    from ethosu.vela import live_range, scheduler as sc
+    from ethosu.vela.data_type import DataType
+    from ethosu.vela.tensor import MemArea, MemType, Tensor
+
+    install()
+    outs = []
+    orig_extract = sc.live_range.extract_live_ranges_from_schedule
+    for k in range(n):
+        _reset()
+        T = rng.choice([2, 4, 6, 10, 16, 30, 60])
+        big = rng.random() < 0.15
+        nlr = rng.randint(21, 34) if big else rng.randint(1, 12)
+        tensors, lrs, ops = [], [], []
+        scratched = {}
+        scores = {}
+        for i in range(nlr):
+            t = Tensor([1, 1, 1, 16], DataType.int8, f"t{k}_{i}")
+            t.mem_area, t.mem_type = MemArea.Sram, MemType.Scratch_fast
+            a = rng.randint(0, T)
+            length = rng.choice([0, 1, 1, 3, 3, 5, rng.randint(0, T), 25 if big else 2])
+            b = min(a + length, T + 1)
+            lr = live_range.LiveRange(t, 16)
+            lr.start_time, lr.end_time = a, b
+            lr.size = 16 * rng.randint(1, 40)
+            if rng.random() < 0.8:
+                scratched[t] = (MemArea.Dram, MemType.Scratch)
+            lrs.append(lr)
+            tensors.append(t)
+            scores[t] = rng.choice([0, 1, 5, 100, rng.randint(0, 10000)])
+            conn = types.SimpleNamespace(parent_tens=t)
+            other = types.SimpleNamespace(parent_tens=Tensor([1, 1, 1, 16], DataType.int8, f"o{k}_{i}"))
+            ops.append(_O(ifm=types.SimpleNamespace(connection=conn), ifm2=None,
+                          ofm=types.SimpleNamespace(connection=other, shape=types.SimpleNamespace(depth=16)),
+                          index=i, get_dependants=lambda: [], parent_op=types.SimpleNamespace(memory_function=None)))
+        peak = [0] * (T + 2)
+        for lr in lrs:
+            for x in range(lr.start_time, min(lr.end_time, T + 1) + 1):
+                peak[x] += lr.size
+        limit = int(max(peak) * rng.choice([0.3, 0.5, 0.7, 0.9, 1.0, 1.2])) // 16 * 16
+
+        def fake_extract(sg, mem_area, mem_type_set, lr_graph, *a, **kw):
+            lr_graph.lrs.extend(lrs)
+            for lr in lrs:
+                lr_graph.ranges[lr.tensors[0]] = lr
+            lr_graph.current_time = T
+            return lr_graph
+
+        cost = types.SimpleNamespace(cascade=1, block_config=None)
+        schedule = types.SimpleNamespace(cost_map={op: cost for op in ops}, label=f"stub{k}")
+        me = types.SimpleNamespace(arch=types.SimpleNamespace(fast_storage_mem_area=MemArea.Sram), sched_ops=ops, sg=None,
+                                   scratched_fms=scratched, evicted_fms=[],
+                                   estimate_element_access=lambda so, bc, depth: types.SimpleNamespace(
+                                       ifm_read=[scores[so.ifm.connection.parent_tens]], ofm_write=0))
+        sc.live_range.extract_live_ranges_from_schedule = fake_extract
+        try:
+            try:
+                sc.Scheduler.use_fast_storage_for_feature_maps(me, schedule, limit)
+            except AssertionError:
+                pass
+        finally:
+            sc.live_range.extract_live_ranges_from_schedule = orig_extract
+        out = {"idx": k, "profile": "stub_fast", "seed": -1, "opts": [], "desc": f"generated live ranges T={T} n={nlr} limit={limit}",
+               "sched": extra(None)}
+        outs.append(out)
+    return outs
+
+
 def replay(ck):
     """--replay of a violation found on one of the networks of harness/sched_nets.py"""
     import json
@@ -778,6 +857,10 @@ def stage(ck, outs, prefix="sched_"):
                     nontrivial.add(r["line"])
                 if r.get("competing"):
                     ck.count(prefix + "fast_storage_with_competition")
+                if r.get("n", 0) > 20 and r.get("competing"):
+                    ck.count(prefix + "fast_storage_more_than_20_ranges")
+            if real.startswith("err:"):
+                ck.count(prefix + "fast_storage_outcome_" + real[4:])
         elif r["kind"] == "optsub":
             if r.get("accepted"):
                 ck.count(prefix + "optimize_sub_schedule_accepted")
